@@ -101,3 +101,26 @@ void __cxa_guard_release(long long* g) { *(char*)g = 1; }
 void __cxa_guard_abort(long long*) {}
 char __libc_single_threaded = 1;
 }
+
+// ---- libsupc++: dynamic_cast for classes with single, non-virtual, public inheritance at offset 0 (all libvata needs).
+// The dynamic type is found through the object's vtable (type_info pointer at vptr[-1]); the base chain is walked
+// through __si_class_type_info::__base_type.  Anything else (multiple / virtual inheritance) stops the path as unsupported.
+extern "C" {
+extern char _ZTVN10__cxxabiv120__si_class_type_infoE[];
+extern char _ZTVN10__cxxabiv117__class_type_infoE[];
+void vs_unsupported_dynamic_cast(void);
+void* __dynamic_cast(const void* src, const void* src_type, const void* dst_type, long src2dst) {
+  (void)src_type; (void)src2dst;
+  const void* const* vptr = *(const void* const* const*)src;
+  long offset_to_top = ((const long*)vptr)[-2];
+  const char* most_derived = (const char*)src + offset_to_top;
+  const char* ti = (const char*)vptr[-1];
+  for (;;) {
+    if (ti == (const char*)dst_type) return (void*)most_derived;
+    const char* tivt = *(const char* const*)ti;
+    if (tivt == _ZTVN10__cxxabiv120__si_class_type_infoE + 16) { ti = *(const char* const*)(ti + 16); continue; }
+    if (tivt == _ZTVN10__cxxabiv117__class_type_infoE + 16) return 0;
+    vs_unsupported_dynamic_cast(); return 0;
+  }
+}
+}
